@@ -1,9 +1,131 @@
+// Package c16: harness command `c16-ast` — property C16 "GetAST mirrors the schema text".
+//
+// An abstract schema (IR, gen.go) is generated, printed as JSight text with random layout, and the EXPECTED
+// AST is computed from the IR alone (expNode); it is compared field by field with GetAST() of the real
+// library. Every generated schema is valid by construction, so an error from GetAST is a diff as well.
+//
+// Field-level conventions of the AST that the property text leaves open and that were calibrated on the
+// unchanged tree (each is a rule, none is a per-case exception):
+//
+//	V1  Value of a literal node, of an object key, of a string rule value (regex, type, additionalProperties,
+//	    allOf/or/enum items) is the DECODED text (JSON escapes resolved, no quotes); numbers / true / false /
+//	    null are the raw token text ("1.50" stays "1.50", min: 1.0 stays "1.0").
+//	V2  Object and array nodes have Value "".
+//	V3  A shortcut node has TokenType "reference" and Value = the shortcut text as written, trimmed
+//	    ("@a|@b", "@a  |  @b" keep their inner blanks); SchemaType is the name for one name, "mixed" for several.
+//	V4  Synthesised rules come FIRST in the rule list: `type` {reference, name, generated} for `@t`;
+//	    `or` {array, generated} whose items are {TokenType "string", name, generated} for `@t | @u`.
+//	V5  Manual `type` rule: TokenType "reference" for a user type name, "string" otherwise.
+//	V6  additionalProperties: true/false → TokenType "boolean"; any type name, INCLUDING "@t", → "string".
+//	V7  allOf with exactly one name (string form or one-element list) → one {reference, name} node; with
+//	    two or more names → {array} with {reference} items.
+//	V8  enum: inline list → {array} with one item per literal (TokenType by JSON kind, Value as V1, item
+//	    Comment = text of the `// …` comment that follows the item, trimmed); `@E` → {reference, "@E"}
+//	    (the values of the named rule are not expanded).
+//	V9  Manual or: {array}; a bare user type name item → {reference}, a bare schema type name → {string},
+//	    a rule-set → {object} with Properties in written order. All marked manual.
+//	V10 Numeric / boolean rule values: TokenType "number" / "boolean", Value = source text.
+//	V11 Comment = note text trimmed: with a rule object the note follows `-` after the closing brace; without
+//	    rules it is the whole annotation text. Line breaks inside a /* */ note are kept verbatim.
+//	V12 Key of a key shortcut is the shortcut text ("@k") with IsKeyShortcut = true.
+//	V13 Rules that are switched off (nullable: false, const: false, optional: false, exclusiveMinimum: false)
+//	    still appear (the AST is taken before compilation).
+//	V14 SchemaType precedence: enum > or > type rule (decoded value, e.g. "any", "email", "@t", "mixed",
+//	    "enum", "decimal") > precision ("decimal") > JSON kind of the example
+//	    (integer / float / string / boolean / null / object / array).
 package c16
 
 import (
 	"fmt"
+	"math/rand"
+	"runtime"
 	"strings"
+	"sync"
+	"time"
+
+	"verifharness/vh"
 )
+
+const salt = 16001
+
+type result struct {
+	c       Case
+	key     string
+	nontriv bool
+	stats   map[string]int
+	impl    string
+	model   string
+	diff    string
+	timeout bool
+}
+
+func oneCase(seed int64) result {
+	g := &gen{r: rand.New(rand.NewSource(seed)), stats: map[string]int{}}
+	var root *Node
+	for try := 0; ; try++ { // 3 of 4 roots are containers / references
+		g.stats, g.enums = map[string]int{}, nil
+		root = g.node(1+g.r.Intn(3), false)
+		if try >= 2 || len(root.Kind) > 1 || g.r.Intn(4) == 0 {
+			break
+		}
+	}
+	p := &printer{r: g.r, nl: "\n"}
+	if g.r.Intn(5) == 0 {
+		p.nl = "\r\n"
+		g.stat("layout_crlf")
+	}
+	p.sb.WriteString([]string{"", "", " ", "\n", "  "}[g.r.Intn(5)])
+	p.value(root, g, "", "", "")
+	txt := p.sb.String()
+	if g.r.Intn(2) == 0 {
+		txt = strings.TrimRight(txt, "\r\n")
+	}
+	c := Case{Schema: txt, Enums: g.enums}
+	c.Types = append(c.Types, userTypes...)
+	want := expNode(root)
+	res := result{c: c, key: txt, stats: g.stats}
+	res.nontriv = len(want.Children) > 0 || len(want.Rules) > 0 || want.Comment != ""
+	type out struct {
+		n   XNode
+		err error
+	}
+	ch := make(chan out, 1)
+	go func() {
+		n, err := realAST(c)
+		ch <- out{n, err}
+	}()
+	select {
+	case o := <-ch:
+		res.model = toJSON(want)
+		if o.err != nil {
+			res.impl = "ERROR " + o.err.Error()
+			res.diff = "GetAST failed on a schema that is valid by construction"
+			return res
+		}
+		if d := diffNode("root", o.n, want); d != "" {
+			res.impl = toJSON(o.n)
+			res.diff = d
+		}
+		countNodes(want, res.stats)
+	case <-time.After(20 * time.Second):
+		res.timeout = true
+	}
+	return res
+}
+
+func countNodes(n XNode, st map[string]int) {
+	st["nodes"]++
+	st["type_"+strings.TrimLeft(n.Type[:1], "")+n.Type[1:]]++
+	for _, r := range n.Rules {
+		st["rule_"+r.Name+"_"+r.Src]++
+	}
+	if n.Comment != "" {
+		st["notes"]++
+	}
+	for _, c := range n.Children {
+		countNodes(c, st)
+	}
+}
 
 func Run(args []string) {
 	if len(args) >= 2 && args[0] == "dump" {
@@ -24,4 +146,61 @@ func Run(args []string) {
 		fmt.Println(toJSON(n))
 		return
 	}
+	rep := vh.NewReport("c16-ast", "abstract schemas (literals of 5 kinds, objects with plain keys and at most one key shortcut, arrays, "+
+		"reference shortcuts @t and @t|@u, rule sets valid by construction incl. enum inline/@E, or with type names and rule-sets, allOf, "+
+		"additionalProperties, precision/decimal, format types, notes; random layout, // and /* */ annotations, LF/CRLF) printed as JSight; "+
+		"expected AST computed from the IR; nontrivial = the root has children, rules or a note")
+	n := vh.Pick(12000, 1500000)
+	base := vh.Seed()*1000003 + salt
+	const batch = 20000
+	stop := false
+	for start := 0; start < n && !stop; start += batch {
+		end := start + batch
+		if end > n {
+			end = n
+		}
+		results := make([]result, end-start)
+		var wg sync.WaitGroup
+		next := make(chan int, 1024)
+		for w := 0; w < runtime.NumCPU(); w++ {
+			wg.Add(1)
+			go func() {
+				defer wg.Done()
+				for i := range next {
+					results[i-start] = oneCase(base*7919 + int64(i))
+				}
+			}()
+		}
+		for i := start; i < end; i++ {
+			next <- i
+		}
+		close(next)
+		wg.Wait()
+		for j, res := range results {
+			i := start + j
+			rep.Case(res.key, res.nontriv)
+			for k, v := range res.stats {
+				rep.Stats[k] += v
+			}
+			if res.timeout {
+				rep.AddDiff(vh.Diff{Component: "C16-ast", Input: res.c.String(), Impl: "TIMEOUT", Model: "GetAST returns"})
+				stop = true
+				break
+			}
+			if res.diff != "" {
+				rep.Stat("diff")
+				impl, model := res.impl, res.model
+				if len(impl) > 1500 {
+					impl = impl[:1500] + "…"
+				}
+				if len(model) > 1500 {
+					model = model[:1500] + "…"
+				}
+				rep.AddDiff(vh.Diff{Component: "C16-ast", Input: res.c.String(), Impl: impl, Model: model, Note: fmt.Sprintf("case %d: %s", i, res.diff)})
+			} else {
+				rep.Stat("ast_equal")
+			}
+		}
+	}
+	rep.Finish()
 }
